@@ -383,9 +383,12 @@ def run_cases(ck, cases, label):
     pipe_bad = [c for c in runnable if c.get("pipelined") == "differs"]
     ck.obligation("%s: the pipelined chain and the stage-by-stage replay send the same entries" % label, not pipe_bad, "cases: %s" % [c["id"] for c in pipe_bad[:5]])
     mism, viol = [], []
-    shard = 400
-    for k in range(0, len(runnable), shard):
-        m, v, out = eval_chain_cases(ck, "C09_%s_%d" % (label, k // shard), runnable[k:k + shard])
+    shard = 300
+    shards = [(k // shard, runnable[k:k + shard]) for k in range(0, len(runnable), shard)]
+    from concurrent.futures import ThreadPoolExecutor
+    with ThreadPoolExecutor(max_workers=4) as ex:
+        results = list(ex.map(lambda a: eval_chain_cases(ck, "C09_%s_%d" % (label, a[0]), a[1]), shards))
+    for m, v, out in results:
         if m is None:
             ck.obligation("%s: cases evaluated inside Coq" % label, False, out[-2500:])
             return runnable, fp_cases
@@ -486,7 +489,7 @@ def run(ck):
         if rc == 0:
             r, f = run_cases(ck, load(outp), "replay")
             allcases += r + f
-    n = ck.n(900, 20000)
+    n = ck.n(1500, 20000)
     outp = os.path.join(ck.work, "gen.jsonl")
     rc, out = ck.go_run("inteng", ["--seed", ck.seed, "--n", n, "--out", outp])
     if rc != 0:
